@@ -29,6 +29,10 @@ def configs(tier, seed):
                "ticks": False}
 
 
+class InheritingRecorder(Recorder):
+    """defines no callback of its own"""
+
+
 def run_config(cfg):
     """returns (checks, info): checks = list of (name, ok, detail)"""
     latency, gaph, markov, w, fold = cfg["latency"], cfg["gap_hours"], cfg["markov"], cfg["warmup_hours"], cfg["fold"]
@@ -50,7 +54,8 @@ def run_config(cfg):
     r.shuffle(evs)
     tr.add_events(evs)
     rec = Recorder()
-    env = TradingEnv(action_space=BoxPortfolio([SPY]), state=[rec], transmitter=tr, latency=latency)
+    heir = InheritingRecorder()          # subscribes through callbacks it inherits: must receive exactly what its parent class receives
+    env = TradingEnv(action_space=BoxPortfolio([SPY]), state=[rec, heir], transmitter=tr, latency=latency)
     rec.env = env
     ticks = {e.uid: e.time for e in evs if isinstance(e, Tick)}
     order_in = {e.uid: i for i, e in enumerate(evs) if isinstance(e, Tick)}
@@ -62,6 +67,7 @@ def run_config(cfg):
     lo, hi = (grid[fold[0]], grid[fold[1]]) if fold else (grid[0], grid[-1])
     for ep in range(2):
         rec.log = []
+        heir.log = []
         env.reset(fold="f" if fold else "training-set")
         steps = [t if isinstance(t, datetime) else t.to_pydatetime() if hasattr(t, "to_pydatetime") else t for t in env._transmitter._steps]
         first, last = steps[0], steps[-1]
@@ -74,6 +80,8 @@ def run_config(cfg):
         while not done:
             _, _, done, _ = env.step(np.array([0.3]))
         log = list(rec.log)
+        checks.append(("observer_with_inherited_callbacks_receives_the_same_events", [(l[0], l[1], l[2]) for l in heir.log] == [(l[0], l[1], l[2]) for l in log],
+                       {"episode": ep, "parent": len(log), "heir": len(heir.log)}))
         times = [l[1] for l in log]
         tag = "ep%d" % ep
         bad = [(i, str(a), str(b)) for i, (a, b) in enumerate(zip(times, times[1:])) if a > b]
